@@ -31,7 +31,9 @@ func VerifC12Plaintext() {
 	}
 	text += " end"
 	width := verifrt.Int("width", 1, verifrt.Param("maxw", 30))
-	out, links := renderWithLinks(text, width)
+	m, links, err := NewMarkup(text)
+	verifrt.Assert(err == nil && m != nil, "markup-built")
+	out := m.Render(width)
 	sc := verifrt.Parse(out)
 	verifrt.Assert(sc.OK && sc.NeutralAtBreaks(), "render-well-formed-and-neutral")
 	verifrt.Assert(len(links) == n, "one-link-entry-per-url")
